@@ -44,6 +44,20 @@ def cases(tier, seed, shard, nshards):
         o, c = "{" * depth, "}" * depth
         deep += ["@comment{a " + o + "x" + c + " b}\n@a{k}", "@preamble{" + o + "x" + c + "}", "@string{s = {" + o + "x" + c + "}}\n@a{k, t = s}",
                  "@a{k, t = {" + o + "x" + c + "}, u = 1}", '@a{k, t = "' + o + 'x"y' + c + '", u = 1}']
+    # long RUNS of one token in front of a structural delimiter (size thresholds on look-behind windows, counters,
+    # parity computations; seed C02-g): n escaped backslashes, then an escaped or a real delimiter
+    runs = (1, 2, 3, 7, 8, 15, 16, 17, 31, 32, 33, 63, 64, 65, 127, 128, 129, 255, 256, 257, 511, 512, 513, 1023, 1025, 4097) + ((65537,) if tier == "thorough" else ())
+    for n in runs:
+        for unit in ("\\\\", "\\}", "\\{", '\\"', "\\,", "\\ ", "{}", "x", " ", "\n", "#", "@ "):
+            u = unit * n
+            for tail in ("\\}", "\\{", '\\"', "", "\\, y", "\\=") if unit == "\\\\" else ("",):
+                b = "a " + u + tail + " b"
+                deep += ["@comment{" + b + "}\n@a{k}", "@a{k, t = {" + b + "}, u = 1}\n@b{j, v = 2}", "@string{s = {" + b + "}}\n@a{k, t = s}",
+                         "@preamble{{" + b + "}}\n@a{k}"]
+                if unit not in ("{}",) and '"' not in unit + tail:
+                    deep.append('@a{k, t = "' + b + '", u = 1}\n@b{j}')
+                if '"' in tail:
+                    deep.append('@a{k, t = "a {' + u + tail + '} b", u = 1}\n@b{j}')
     for i, t in enumerate(deep):
         if i % nshards == shard:
             yield {"k": "tok", "text": t}
